@@ -1,5 +1,5 @@
 (* line protocol (one history per line, blank separated; '-' = empty list):
-     <superuser 0|1> <umask> <root writable 0|1> <ancestors p=a+b+..,...> <child p=q,...> <links p=d,...> <entries p:cid:mode:owned:isdir,...>
+     <superuser 0|1> <umask> <root writable 0|1> <ancestors p=a+b+..,...> <child p=q,...> <links p=d,...> <special ids, comma sep> <entries p:cid:mode:owned:isdir,...>
      <query ids, comma sep> <event> ...
    event = R/<cfg>  |  C:<n>:<j>:<junk or ->/<cfg>
    cfg = class/allow/dryrun/linepps/filepps(+ sep; a mode = SetFileMode, x = external program)/gensup(always|never|asneeded|only)/omit/sersup(p:t + sep)/typesup/types(+ sep)/resmode
@@ -41,7 +41,7 @@ let () =
       let line = String.trim (input_line stdin) in
       (try
         match List.filter (fun t -> t <> "") (String.split_on_char ' ' line) with
-        | su :: um :: rw :: anc :: chl :: lnk :: files :: query :: evs ->
+        | su :: um :: rw :: anc :: chl :: lnk :: spc :: files :: query :: evs ->
           let anc_tab = List.map (fun t -> match String.split_on_char '=' t with
               | [p; l] -> (int_of_string p, List.map n_of_int (ints '+' l)) | _ -> failwith "anc") (split ',' anc) in
           let chl_tab = List.map (fun t -> match String.split_on_char '=' t with
@@ -51,7 +51,8 @@ let () =
           let e = { superuser = b su; umask = n_of_int (int_of_string um); root_writable = b rw;
                     ancestors = (fun p -> try List.assoc (int_of_n p) anc_tab with Not_found -> []);
                     child = (fun p -> try List.assoc (int_of_n p) chl_tab with Not_found -> N0);
-                    links = (fun p -> try Some (List.assoc (int_of_n p) lnk_tab) with Not_found -> None) } in
+                    links = (fun p -> try Some (List.assoc (int_of_n p) lnk_tab) with Not_found -> None);
+                    special = (let sp = ints ',' spc in fun p -> List.mem (int_of_n p) sp) } in
           let s0 = List.fold_left (fun s t ->
               match String.split_on_char ':' t with
               | [p; c; m; o; d] -> upd s (n_of_int (int_of_string p))
